@@ -123,7 +123,12 @@ def run(ctx):
             use_json = rng.random() < 0.6
             fault = None
             k = rng.random()
-            if as_property:
+            if as_property and k > 0.9:
+                # a well-formed multi-property specification handed to -p: not a property
+                ps = [p] + [gen.pick(rng, pool) for _ in range(rng.randrange(1, 3))]
+                toks = A.spec_tokens(ps)
+                fault = 'specification-as-property'
+            elif as_property:
                 toks = A.prop_tokens(p)
             else:
                 ps = [p] + [gen.pick(rng, pool) for _ in range(rng.randrange(0, 3))]
